@@ -104,6 +104,13 @@ func (v *VLANAllocator) AllocateWithSTag(nteID string, sTag uint16) (*VLANAlloca
 	v.mu.Lock()
 	defer v.mu.Unlock()
 
+	// The requested S-TAG must come from the configured range, like every
+	// pair this allocator hands out
+	if sTag < v.config.STagRange.Start || sTag > v.config.STagRange.End {
+		return nil, fmt.Errorf("S-TAG %d outside configured range %d-%d",
+			sTag, v.config.STagRange.Start, v.config.STagRange.End)
+	}
+
 	// Check if already allocated
 	if alloc, ok := v.allocations[nteID]; ok {
 		if alloc.STag == sTag {
